@@ -145,6 +145,9 @@ Proofs/PC05.vos Proofs/PC05.vok Proofs/PC05.required_vos: Proofs/PC05.v Model/Mo
 Proofs/PC04.vo Proofs/PC04.glob Proofs/PC04.v.beautified Proofs/PC04.required_vo: Proofs/PC04.v Model/Mon.vo Model/MonC04.vo Proofs/Framework.vo Proofs/StoreLocks.vo Proofs/StorePromises.vo Proofs/Discipline.vo Proofs/SysInv.vo Proofs/Eqb.vo
 Proofs/PC04.vio: Proofs/PC04.v Model/Mon.vio Model/MonC04.vio Proofs/Framework.vio Proofs/StoreLocks.vio Proofs/StorePromises.vio Proofs/Discipline.vio Proofs/SysInv.vio Proofs/Eqb.vio
 Proofs/PC04.vos Proofs/PC04.vok Proofs/PC04.required_vos: Proofs/PC04.v Model/Mon.vos Model/MonC04.vos Proofs/Framework.vos Proofs/StoreLocks.vos Proofs/StorePromises.vos Proofs/Discipline.vos Proofs/SysInv.vos Proofs/Eqb.vos
+Proofs/PC04e.vo Proofs/PC04e.glob Proofs/PC04e.v.beautified Proofs/PC04e.required_vo: Proofs/PC04e.v Model/Mon.vo Model/MonC04.vo Proofs/Framework.vo Proofs/StorePromises.vo Proofs/Discipline.vo Proofs/SysInv.vo Proofs/Eqb.vo
+Proofs/PC04e.vio: Proofs/PC04e.v Model/Mon.vio Model/MonC04.vio Proofs/Framework.vio Proofs/StorePromises.vio Proofs/Discipline.vio Proofs/SysInv.vio Proofs/Eqb.vio
+Proofs/PC04e.vos Proofs/PC04e.vok Proofs/PC04e.required_vos: Proofs/PC04e.v Model/Mon.vos Model/MonC04.vos Proofs/Framework.vos Proofs/StorePromises.vos Proofs/Discipline.vos Proofs/SysInv.vos Proofs/Eqb.vos
 Proofs/PC07.vo Proofs/PC07.glob Proofs/PC07.v.beautified Proofs/PC07.required_vo: Proofs/PC07.v Model/Mon.vo Model/MonC07.vo Proofs/Framework.vo Proofs/StoreLocks.vo Proofs/StorePromises.vo Proofs/StoreCallbacks.vo Proofs/Discipline.vo Proofs/SysInv.vo Proofs/Eqb.vo Proofs/PC16.vo Proofs/PC05.vo
 Proofs/PC07.vio: Proofs/PC07.v Model/Mon.vio Model/MonC07.vio Proofs/Framework.vio Proofs/StoreLocks.vio Proofs/StorePromises.vio Proofs/StoreCallbacks.vio Proofs/Discipline.vio Proofs/SysInv.vio Proofs/Eqb.vio Proofs/PC16.vio Proofs/PC05.vio
 Proofs/PC07.vos Proofs/PC07.vok Proofs/PC07.required_vos: Proofs/PC07.v Model/Mon.vos Model/MonC07.vos Proofs/Framework.vos Proofs/StoreLocks.vos Proofs/StorePromises.vos Proofs/StoreCallbacks.vos Proofs/Discipline.vos Proofs/SysInv.vos Proofs/Eqb.vos Proofs/PC16.vos Proofs/PC05.vos
@@ -211,9 +214,9 @@ Props/C16.vos Props/C16.vok Props/C16.required_vos: Props/C16.v Model/Mon.vos Pr
 Props/C05.vo Props/C05.glob Props/C05.v.beautified Props/C05.required_vo: Props/C05.v Model/Mon.vo Model/MonC05.vo Model/MonC03.vo Model/MonC05h.vo Proofs/StoreLocks.vo Proofs/StorePromises.vo Proofs/StoreCallbacks.vo Proofs/Discipline.vo Proofs/SysInv.vo Proofs/PC05.vo Proofs/PT05.vo
 Props/C05.vio: Props/C05.v Model/Mon.vio Model/MonC05.vio Model/MonC03.vio Model/MonC05h.vio Proofs/StoreLocks.vio Proofs/StorePromises.vio Proofs/StoreCallbacks.vio Proofs/Discipline.vio Proofs/SysInv.vio Proofs/PC05.vio Proofs/PT05.vio
 Props/C05.vos Props/C05.vok Props/C05.required_vos: Props/C05.v Model/Mon.vos Model/MonC05.vos Model/MonC03.vos Model/MonC05h.vos Proofs/StoreLocks.vos Proofs/StorePromises.vos Proofs/StoreCallbacks.vos Proofs/Discipline.vos Proofs/SysInv.vos Proofs/PC05.vos Proofs/PT05.vos
-Props/C04.vo Props/C04.glob Props/C04.v.beautified Props/C04.required_vo: Props/C04.v Model/Mon.vo Model/MonC04.vo Proofs/StoreLocks.vo Proofs/StorePromises.vo Proofs/Discipline.vo Proofs/SysInv.vo Proofs/PC04.vo
-Props/C04.vio: Props/C04.v Model/Mon.vio Model/MonC04.vio Proofs/StoreLocks.vio Proofs/StorePromises.vio Proofs/Discipline.vio Proofs/SysInv.vio Proofs/PC04.vio
-Props/C04.vos Props/C04.vok Props/C04.required_vos: Props/C04.v Model/Mon.vos Model/MonC04.vos Proofs/StoreLocks.vos Proofs/StorePromises.vos Proofs/Discipline.vos Proofs/SysInv.vos Proofs/PC04.vos
+Props/C04.vo Props/C04.glob Props/C04.v.beautified Props/C04.required_vo: Props/C04.v Model/Mon.vo Model/MonC04.vo Proofs/StoreLocks.vo Proofs/StorePromises.vo Proofs/Discipline.vo Proofs/SysInv.vo Proofs/PC04.vo Proofs/PC04e.vo
+Props/C04.vio: Props/C04.v Model/Mon.vio Model/MonC04.vio Proofs/StoreLocks.vio Proofs/StorePromises.vio Proofs/Discipline.vio Proofs/SysInv.vio Proofs/PC04.vio Proofs/PC04e.vio
+Props/C04.vos Props/C04.vok Props/C04.required_vos: Props/C04.v Model/Mon.vos Model/MonC04.vos Proofs/StoreLocks.vos Proofs/StorePromises.vos Proofs/Discipline.vos Proofs/SysInv.vos Proofs/PC04.vos Proofs/PC04e.vos
 Props/C07.vo Props/C07.glob Props/C07.v.beautified Props/C07.required_vo: Props/C07.v Model/Mon.vo Model/MonC07.vo Proofs/StoreLocks.vo Proofs/StorePromises.vo Proofs/StoreCallbacks.vo Proofs/Discipline.vo Proofs/SysInv.vo Proofs/PC05.vo Proofs/PC07.vo
 Props/C07.vio: Props/C07.v Model/Mon.vio Model/MonC07.vio Proofs/StoreLocks.vio Proofs/StorePromises.vio Proofs/StoreCallbacks.vio Proofs/Discipline.vio Proofs/SysInv.vio Proofs/PC05.vio Proofs/PC07.vio
 Props/C07.vos Props/C07.vok Props/C07.required_vos: Props/C07.v Model/Mon.vos Model/MonC07.vos Proofs/StoreLocks.vos Proofs/StorePromises.vos Proofs/StoreCallbacks.vos Proofs/Discipline.vos Proofs/SysInv.vos Proofs/PC05.vos Proofs/PC07.vos
